@@ -348,28 +348,19 @@ func (s *NestedConjunctionSearcher) Advance(ctx *search.SearchContext, ID index.
 	if err != nil {
 		return nil, err
 	}
-	// we now follow the the following logic for each searcher:
-	// let S be the length of the ancestry chain for the searcher
-	// let I be the length of the ancestry chain for the given ID
-	// 1. if S > I:
-	//    then we just Advance() the searcher to the given ID if required
-	// 2. else if S <= I:
-	//    then we get the AncestorID at position (S - 1) from the root of
-	//    the given ID's ancestry chain, and Advance() the searcher to
-	//    it if required
+	// every searcher is advanced to the start of the group the given ID belongs
+	// to, i.e. to the ancestor of the given ID at the level the clauses are joined
+	// on (or to the given ID itself when it lies at or above that level): a match
+	// of one clause inside that group with a smaller ID than the given one may be
+	// what keeps the group aligned, so it must not be skipped; the loop over
+	// Next() below drops the matches that come before the given ID
+	targetID := ID
+	if len(s.ancestors)-1 > s.joinIdx {
+		targetID = s.toAdvanceID(ancestorFromRoot(s.ancestors, s.joinIdx))
+	}
 	for i, searcher := range s.searchers {
 		if s.currs[i] == nil {
 			return nil, nil // already exhausted, nothing to do
-		}
-		var targetID index.IndexInternalID
-		S := len(s.currAncestors[i])
-		I := len(s.ancestors)
-		if S > I {
-			// case 1: S > I
-			targetID = ID
-		} else {
-			// case 2: S <= I
-			targetID = s.toAdvanceID(ancestorFromRoot(s.ancestors, S-1))
 		}
 		if s.currs[i].IndexInternalID.Compare(targetID) < 0 {
 			// need to advance this searcher
